@@ -187,6 +187,12 @@ def st_pair_lens(draw, scheme, cfg):
         k = draw(st.integers(1, 8))
         lens1 = [draw(st.integers(1, lim)) if draw(st.booleans()) else draw(st.sampled_from([t for t in desc.thresholds(cfg) if t <= lim] or [1]))
                  for _ in range(k)]
+        Bk_, Bp_, bp_ = cfg["param_B"], cfg["param_B_prime"], cfg["param_b_prime"]
+        lo_large = max(Bk_ * bp_ + 1, Bk_ * (Bp_ - 1) + 1)
+        if lo_large <= lim and draw(st.booleans()):
+            # a LARGE list with at least one completely full pointer block (two-level path, pointer blocks padded to the array
+            # block size): the shape most sensitive to how full and partial blocks are padded
+            lens1[0] = draw(st.integers(lo_large, lim))
         if not desc.lens_ok(cfg, lens1):
             lens1 = [1] * k
         contribs = [pi2lev_contrib(cfg, n) for n in lens1]
@@ -219,10 +225,30 @@ def st_pair_lens(draw, scheme, cfg):
     return draw(st_composition(n1, 12, max_list)), draw(st_composition(n2, 12, max_list))
 
 
+def _pi2lev_crossing():
+    """Pi2Lev parameter sets whose full pointer blocks (B' pointers) are shorter than the array block by enough to change the
+    AES-CBC ciphertext length, with a large-case list that fits the exploration bounds"""
+    out = []
+    for idsz, combos in S.PI2LEV_COMBOS.items():
+        for (Bk, b, Bp, bp) in combos:
+            idx = (Bk * idsz) // Bp
+            if (1 + Bp * idx) // 16 != (1 + Bk * idsz) // 16:
+                lo = max(Bk * bp + 1, Bk * (Bp - 1) + 1)
+                if lo <= min(200, Bk * Bp * bp - 1, 256 ** idsz - 1):
+                    out.append((idsz, Bk, b, Bp, bp))
+    return out
+
+
+PI2LEV_CROSSING = _pi2lev_crossing()
+
+
 @st.composite
 def st_case(draw, scheme):
     desc = S.DESCS[scheme]
     cfg = desc.st_config(draw)
+    if scheme == "CJJ14.Pi2Lev" and PI2LEV_CROSSING and draw(st.integers(0, 2)) == 0:
+        idsz, Bk, b, Bp, bp = draw(st.sampled_from(PI2LEV_CROSSING))
+        cfg.update(param_B=Bk, param_b=b, param_B_prime=Bp, param_b_prime=bp, param_identifier_size=idsz)
     if scheme == "CGKO06.SSE1" and cfg["param_s"] > 1024:
         cfg["param_s"] = 1024
     lens1, lens2 = draw(st_pair_lens(scheme, cfg))
